@@ -27,7 +27,7 @@ def make_gfunction(heights_to_curves: dict, b, r_b, d, coords):
     return GFunction(
         b=b,
         d=d,
-        r_b_values={h: r_b for h in heights_to_curves},
+        r_b_values={h: (r_b[h] if isinstance(r_b, dict) else r_b) for h in heights_to_curves},  # one radius, or one per stored height
         g_lts={h: list(c) for h, c in heights_to_curves.items()},
         log_time=eskilson_log_times(),
         bore_locations=coords,
